@@ -2,8 +2,8 @@
 from .. import brokermachine as bm
 from ..core import bfs
 
-FEES_QUICK = [('zero',), ('pct', '0.001', '0'), ('pct', '0.0015', '0.005')]
-FEES_THOROUGH = FEES_QUICK + [('pct', '0', '1'), ('pct', '1', '0')]
+FEES_QUICK = [('zero',), ('pct', '0.0015', '0.005')]
+FEES_THOROUGH = FEES_QUICK + [('pct', '0.001', '0'), ('pct', '0', '1'), ('pct', '1', '0')]
 
 FUNDED = (('acct_sub', '5000'), ('create', '1'), ('create', '2'),
           ('pf_sub', '1', '2000'), ('pf_sub', '2', '2000'))
